@@ -324,6 +324,9 @@ func genBulkCase(r *Rng) bulkCase {
 		c.Parallel, c.Cont = true, true
 	}
 	n := 1 + r.Intn(7)
+	if r.Chance(4) { // large bulk: slices.SortFunc leaves insertion sort above 12 elements (all ElementIDs are equal: order must survive)
+		n = 13 + r.Intn(60)
+	}
 	for i := 0; i < n; i++ {
 		o := genEvOp(r, now, int64(np+i))
 		if r.Chance(35) { // keep a good share of succeeding elements
